@@ -558,6 +558,11 @@ func legacySignerFields(dir string) map[string][]string {
 	out := map[string][]string{}
 	fset := token.NewFileSet()
 	ents, _ := os.ReadDir(dir)
+	type meth struct {
+		recv string
+		body *ast.BlockStmt
+	}
+	methods := map[string]map[string]meth{} // type -> method -> body (hand-written files only)
 	for _, e := range ents {
 		n := e.Name()
 		if e.IsDir() || !strings.HasSuffix(n, ".go") || strings.HasSuffix(n, "_test.go") || strings.HasSuffix(n, ".pb.go") || strings.HasSuffix(n, ".pb.gw.go") {
@@ -569,10 +574,9 @@ func legacySignerFields(dir string) map[string][]string {
 		}
 		for _, d := range f.Decls {
 			fd, ok := d.(*ast.FuncDecl)
-			if !ok || fd.Name.Name != "GetSigners" || fd.Recv == nil || len(fd.Recv.List) != 1 || fd.Body == nil || len(fd.Recv.List[0].Names) != 1 {
+			if !ok || fd.Recv == nil || len(fd.Recv.List) != 1 || fd.Body == nil || len(fd.Recv.List[0].Names) != 1 {
 				continue
 			}
-			recv := fd.Recv.List[0].Names[0].Name
 			var tname string
 			switch t := fd.Recv.List[0].Type.(type) {
 			case *ast.StarExpr:
@@ -585,22 +589,53 @@ func legacySignerFields(dir string) map[string][]string {
 			if tname == "" {
 				continue
 			}
-			set := map[string]bool{}
-			ast.Inspect(fd.Body, func(nd ast.Node) bool {
-				if se, ok := nd.(*ast.SelectorExpr); ok {
-					if id, ok := se.X.(*ast.Ident); ok && id.Name == recv {
-						set[se.Sel.Name] = true
-					}
-				}
-				return true
-			})
-			var fs []string
-			for k := range set {
-				fs = append(fs, k)
+			if methods[tname] == nil {
+				methods[tname] = map[string]meth{}
 			}
-			sort.Strings(fs)
-			out[tname] = fs
+			methods[tname][fd.Name.Name] = meth{fd.Recv.List[0].Names[0].Name, fd.Body}
 		}
+	}
+	// fields of the receiver a method reads, through the type's own hand-written helper
+	// methods (msg.ConsumerAddress() reads msg.Consumer) and generated getters (GetX -> X)
+	var fieldsOf func(tname, mname string, depth int, set map[string]bool)
+	fieldsOf = func(tname, mname string, depth int, set map[string]bool) {
+		m, ok := methods[tname][mname]
+		if !ok || depth > 4 {
+			return
+		}
+		ast.Inspect(m.body, func(nd ast.Node) bool {
+			se, ok := nd.(*ast.SelectorExpr)
+			if !ok {
+				return true
+			}
+			id, ok := se.X.(*ast.Ident)
+			if !ok || id.Name != m.recv {
+				return true
+			}
+			if _, isMeth := methods[tname][se.Sel.Name]; isMeth && se.Sel.Name != mname {
+				fieldsOf(tname, se.Sel.Name, depth+1, set)
+				return true
+			}
+			name := se.Sel.Name
+			if strings.HasPrefix(name, "Get") && len(name) > 3 {
+				name = name[3:] // generated getter
+			}
+			set[name] = true
+			return true
+		})
+	}
+	for tname, ms := range methods {
+		if _, ok := ms["GetSigners"]; !ok {
+			continue
+		}
+		set := map[string]bool{}
+		fieldsOf(tname, "GetSigners", 0, set)
+		var fs []string
+		for k := range set {
+			fs = append(fs, k)
+		}
+		sort.Strings(fs)
+		out[tname] = fs
 	}
 	return out
 }
